@@ -174,7 +174,7 @@ def execute(case):
                      "glyphsSame": same_glyphs, "events": events, "varFeatures": case["varFeatures"], "writersOnlyAdd": writers_only_add,
                      "_sig": [case["cid"], k], "_k": k})
         if not case["prodNames"]:
-            mcase = {"ufo": m["ufo"], "q": 1}
+            mcase = {"ufo": m["ufo"], "q": 1, "var": True}
             kr = layout_exec.kern_record(mcase, inst, tid + "/kern")
             kr["_acc"] = "kern"
             kr["_k"] = k
